@@ -577,7 +577,7 @@ impl fmt::Display for Exp {
     fn fmt(&self, f: &mut fmt::Formatter<'_>) -> fmt::Result {
         let s = match self {
             Exp::Number(value) => value.to_string(),
-            Exp::Variable(name) => name.clone(),
+            Exp::Variable(name) => crate::utils::render_variable_name(name),
             Exp::Abs(exp) => format!("abs{{ {} }}", exp),
             Exp::And(exps) => exps
                 .iter()
